@@ -279,7 +279,8 @@ class TCPTransport(Transport):
         self._server = TcpServer(self._syncObj._poller, host, port, onNewConnection = self._onNewIncomingConnection,
                                  sendBufferSize = conf.sendBufferSize,
                                  recvBufferSize = conf.recvBufferSize,
-                                 connectionTimeout = conf.connectionTimeout)
+                                 connectionTimeout = conf.connectionTimeout,
+                                 keepalive = conf.tcp_keepalive)
 
     def _maybeBind(self):
         """
